@@ -130,3 +130,12 @@ Proof.
   split; [exact H1|]. split; [exact H2|]. split; [exact H3|]. split; [exact H4|]. split; [exact H5|]. split; [exact H6|exact (zero_mat_colsums n)].
 Qed.
 Print Assumptions c17_constructor.
+
+(* the sub-axis guard of get_PropagationMatrix: if is_subset_of accepts (exact arithmetic; rnd is what round() returned for the ratio of the
+   steps) then every point of the sub-axis is a point of the propagator's axis *)
+Theorem c17_accepted_sub_axis_lies_on_the_axis : forall (rnd : Z) (sub ax : axis), is_subset_of rnd sub ax = true ->
+  forall k, (k < (let '(_, l1, _) := sub in l1))%nat -> ax_mem (ax_point sub k) ax = true.
+Proof. exact subset_points. Qed.
+Print Assumptions c17_accepted_sub_axis_lies_on_the_axis.
+Example c17_sub_axis_example : is_subset_of 2 (3 # 1, 5%nat, 2 # 1)%Q (1 # 1, 20%nat, 1 # 1)%Q = true /\ is_subset_of 2 (3 # 1, 5%nat, 2 # 1)%Q (1 # 1, 10%nat, 1 # 1)%Q = false.
+Proof. split; vm_compute; reflexivity. Qed.
